@@ -284,24 +284,31 @@ def incLast : List Int → List Int
   | [x] => [inc64 x]
   | x :: xs => x :: incLast xs
 
+/-- The upper bound of the compatible-release operator `~=V`: the release of
+    `V` without its last segment, the new last segment incremented; same epoch;
+    nothing else. -/
+def compatUpper (v : Ver) : Ver :=
+  { epoch := v.epoch, release := incLast (v.release.take (v.release.length - 1)) }
+
+/-- The `switch o` of `ParseRange`: the criteria an operator text yields for
+    the parsed version; `none` = "unknown range operator", or `~=` with fewer
+    than two release segments. -/
+def opCriteria (o : List Char) (v : Ver) : Option (List Criterion) :=
+  if o = ['=', '='] then some [⟨.eq, v⟩]
+  else if o = ['!', '='] then some [⟨.ne, v⟩]
+  else if o = ['<', '='] then some [⟨.le, v⟩]
+  else if o = ['>', '='] then some [⟨.ge, v⟩]
+  else if o = ['<'] then some [⟨.lt, v⟩]
+  else if o = ['>'] then some [⟨.gt, v⟩]
+  else if o = ['~', '='] then
+    (if v.release.length < 2 then none else some [⟨.ge, v⟩, ⟨.lt, compatUpper v⟩])
+  else none
+
 /-- One comma-separated part of `ParseRange`; `none` = error. -/
 def parseCriterion (part : List Char) : Option (List Criterion) :=
-  let (o, vt) := splitAtLastOp part
-  match parse vt with
+  match parse (splitAtLastOp part).2 with
   | none => none
-  | some v =>
-    if o = ['=', '='] then some [⟨.eq, v⟩]
-    else if o = ['!', '='] then some [⟨.ne, v⟩]
-    else if o = ['<', '='] then some [⟨.le, v⟩]
-    else if o = ['>', '='] then some [⟨.ge, v⟩]
-    else if o = ['<'] then some [⟨.lt, v⟩]
-    else if o = ['>'] then some [⟨.gt, v⟩]
-    else if o = ['~', '='] then
-      (if v.release.length < 2 then none
-       else
-        let uv : Ver := { epoch := v.epoch, release := incLast (v.release.take (v.release.length - 1)) }
-        some [⟨.ge, v⟩, ⟨.lt, uv⟩])
-    else none
+  | some v => opCriteria (splitAtLastOp part).1 v
 
 def parseCriteria : List (List Char) → Option (List Criterion)
   | [] => some []
